@@ -24,6 +24,18 @@ rational `a / b` rounded as `m` prescribes; `IsRounded m a b q` characterises it
   driver's `asg` lines): under the hypotheses of `div_correct`, `a` stores the correctly rounded quotient
   converted to its own representation type, `L.wrap (roundDiv mode a b)` — the quotient itself when it fits `L`.
 
+* `roundDiv_natAbs_le`, `quotient_fits_digits`, `quotient_fits_int` — **numbers with further layers** (the driver's
+  `nst` and `ovr` lines: `rounding_integer<elastic_integer<D,N>,Tag>`, `elastic_integer<D, rounding_integer<N,Tag>>`,
+  `static_integer`, `static_number`, and `overflow_integer` / `rounding_integer` nests over 8- and 16-bit
+  representations, `/` and `%`, all four signedness mixes of dividend and divisor, built-in `int` / `unsigned` operands on
+  either side).  The operators of those layers are tied to the code **by correspondence only**: the driver's model is
+  value-level (result type from the elastic policy — quotient: the dividend's digits, remainder: the smaller digit
+  count, signed when either operand is — and the value `roundDiv` / truncated remainder of the operand VALUES), with
+  the same expression as the independent oracle.  What is proved is that this demand is always satisfiable: in every
+  mode the correctly rounded quotient is no larger in magnitude than the dividend, so it fits the dividend's digit
+  count (given a sign), and the quotient of 8- and 16-bit operands — `lowest / -1` included — fits the `int` result, so
+  that no overflow signal is ever justified there.
+
 `L.InRange a`, `R.InRange b` say that the operands are values of their types; `T.InRange a`,
 `T.InRange b` that the usual arithmetic conversions keep their values (they change a value only when a
 negative signed operand meets an unsigned type of at least its rank).
@@ -96,6 +108,28 @@ theorem compound_div_correct (mode : RdMode) (L R : IntTy) (hL : 1 ≤ L.bits) (
   refine ⟨?_, fun h => IntTy.wrap_id hL h⟩
   rw [layered_bin_rounding .div mode L R a b (by decide), div_correct mode L R hL hR a b haL hbR haT hbT hb0 hq]
   rfl
+
+/-- in every mode the correctly rounded quotient is no larger in magnitude than the dividend -/
+theorem roundDiv_natAbs_le (m : RoundMode) (a b : Int) (hb : b ≠ 0) : (roundDiv m a b).natAbs ≤ a.natAbs :=
+  Spec.natAbs_le_of_close (Spec.close_of_isRounded (Spec.roundDiv_isRounded m a b hb) hb)
+
+/-- the quotient of a `d`-digit dividend is a `d`-digit number (the elastic policy `digits = LhsDigits`, signed when
+either operand is, always holds the correctly rounded quotient) -/
+theorem quotient_fits_digits (m : RoundMode) (d : Nat) (a b : Int) (hb : b ≠ 0) (ha : a.natAbs ≤ 2 ^ d - 1) :
+    (roundDiv m a b).natAbs ≤ 2 ^ d - 1 :=
+  Nat.le_trans (roundDiv_natAbs_le m a b hb) ha
+
+/-- a dividend whose magnitude fits `int` (every 8- and 16-bit value, `lowest` included) has a rounded quotient that is an
+`int`: no overflow can be signalled for `lowest / -1` of a representation narrower than `int` -/
+theorem quotient_fits_int (m : RoundMode) (a b : Int) (hb : b ≠ 0) (ha : a.natAbs ≤ 2147483647) :
+    i32.InRange (roundDiv m a b) := by
+  have := roundDiv_natAbs_le m a b hb
+  constructor <;> simp [IntTy.lowest, IntTy.max, i32] <;> omega
+
+example : ∀ m : RoundMode, roundDiv m (-128) (-1) = 128 ∧ roundDiv m (-32768) (-1) = 32768 ∧ roundDiv m 255 (-1) = -255 := by
+  intro m; cases m <;> decide
+example : roundDiv .nearestAway 201 (-3) = -67 ∧ roundDiv .floor 200 (-3) = -67 ∧ roundDiv .nearestUp 3 (-2) = -1 ∧
+    roundDiv .truncate 200 (-3) = -66 ∧ (200 : Int).natAbs ≤ 2 ^ 8 - 1 := by decide
 
 /-! ## non-vacuity: evaluations at the type limits, and satisfiable hypotheses -/
 
